@@ -28,6 +28,7 @@ use super::constant::MIN_BLOCK_SIZE;
 use super::error::verify_range;
 use super::error::verify_true;
 use super::error::SourceError;
+use super::error::SourceErrorReason;
 use super::error::VerifyError;
 
 /// Traits for buffer-like objects that can be filled by [`Source`].
@@ -275,10 +276,22 @@ impl FrameBuf {
     }
 }
 
+/// Checks the arguments of `fill_le_bytes` and returns the number of samples in `bytes`.
+fn verify_le_bytes(bytes: &[u8], bytes_per_sample: usize) -> Result<usize, SourceError> {
+    if !(1..=4).contains(&bytes_per_sample) || bytes.len() % bytes_per_sample != 0 {
+        return Err(SourceError::by_reason(SourceErrorReason::InvalidBuffer));
+    }
+    Ok(bytes.len() / bytes_per_sample)
+}
+
 impl Fill for FrameBuf {
     fn fill_interleaved(&mut self, interleaved: &[i32]) -> Result<(), SourceError> {
         let stride = self.size();
         let channels = self.channels();
+        if interleaved.len() > stride * channels {
+            // more samples than this buffer holds.
+            return Err(SourceError::by_reason(SourceErrorReason::InvalidBuffer));
+        }
         deinterleave(interleaved, channels, stride, &mut self.samples);
         self.filled_size = interleaved.len() / channels;
         Ok(())
@@ -286,7 +299,11 @@ impl Fill for FrameBuf {
 
     #[inline]
     fn fill_le_bytes(&mut self, bytes: &[u8], bytes_per_sample: usize) -> Result<(), SourceError> {
-        let sample_count = bytes.len() / bytes_per_sample;
+        let sample_count = verify_le_bytes(bytes, bytes_per_sample)?;
+        if sample_count > self.size() * self.channels() {
+            // more samples than this buffer holds.
+            return Err(SourceError::by_reason(SourceErrorReason::InvalidBuffer));
+        }
         self.readbuf.resize(sample_count, 0);
         le_bytes_to_i32s(bytes, &mut self.readbuf, bytes_per_sample);
 
@@ -421,6 +438,11 @@ impl Fill for Context {
         if bytes.is_empty() {
             return Ok(());
         }
+        if bytes_per_sample != self.bytes_per_sample {
+            // the digest is defined over samples of the width declared in `Context::new`.
+            return Err(SourceError::by_reason(SourceErrorReason::InvalidBuffer));
+        }
+        verify_le_bytes(bytes, bytes_per_sample)?;
         self.md5.update(bytes);
         self.sample_count += bytes.len() / self.channels / bytes_per_sample;
         self.frame_count += 1;
